@@ -147,6 +147,10 @@ def case_history(rep):
                     nm = type(it).__name__
                     if nm == "SolidBodyPressure":
                         ramp[it] = random_ramp(rng, n, -0.1, 0.2, "random")
+                        if n >= 2 and (rep + s) % 2 == 0:
+                            # unloading to exactly zero pressure after a non-zero value (round 11: `if pressure:` in update() skipped 0.0)
+                            ramp[it][int(rng.integers(1, n))] = 0.0
+                            run.units["trace:pressure-ramp-through-zero"] += 1
                     elif nm == "PointLoad":
                         ramp[it] = rng.uniform(-0.02, 0.02, (n, 1, field[0].dim))
                     elif nm == "SolidBodyForce":
@@ -183,6 +187,14 @@ def case_history(rep):
                 d = field[0].dim
                 for it in items[1:]:
                     nm = type(it).__name__
+                    if id(it) in drawn[j] and nm == "SolidBodyPressure":
+                        # the follower load of a ramped pressure item at the converged state is the one of a NEW item created with the drawn
+                        # value (constructor path against update path; zero for a drawn value of exactly zero)
+                        want = float(drawn[j][id(it)][i])
+                        fv = np.asarray(it.assemble.vector(res.x).toarray(), float).ravel()
+                        ref = np.asarray(fem.SolidBodyPressure(it.field, pressure=want).assemble.vector(res.x).toarray(), float).ravel()
+                        in_effect.append(("pressure", maxabs(fv - ref) / (0.2 * V0 / L0)))
+                        continue
                     if id(it) not in drawn[j] or nm not in ("SolidBodyForce", "PointLoad"):
                         continue
                     want = drawn[j][id(it)][i]
@@ -225,7 +237,7 @@ def case_history(rep):
                 run.compare("trace", "trace clause=converged-state-carries-the-ramp-value", max(carried), 1e-13,
                             "%s: a converged substep does not carry the ramp value of its position on the moved boundary" % label,
                             unit="trace:state-carries-ramp-value", config=("carries", kind))
-            for nm in ("force", "pointload"):
+            for nm in ("force", "pointload", "pressure"):
                 errs = [e_ for n_, e_ in in_effect if n_ == nm]
                 if errs:
                     run.compare("trace", "trace clause=load-in-effect-is-the-ramp-value item=%s" % nm, max(errs), 1e-12,
@@ -768,7 +780,7 @@ SPEC = {
                        "or:running-max-closed-form:hand", "or:running-max-closed-form:tensortrax", "plasticity:yield-own", "plasticity:on-surface",
                        "plasticity:stored-alpha", "plasticity:stored-plastic-strain", "fe-history:own:plasticity", "fe-history:own:ni-ogden-roxburgh",
                        "fe-history:on-surface:plasticity", "trace:drawn-ramp-order", "trace:continuation-across-steps",
-                       "trace:load-in-effect:force", "trace:load-in-effect:pointload"],
+                       "trace:load-in-effect:force", "trace:load-in-effect:pointload", "trace:load-in-effect:pressure", "trace:pressure-ramp-through-zero"],
     "rule": ("random load histories on small solids (hex8, tet4, quad4/8 plane strain, axisymmetric, nearly-incompressible, mixed): 1..3 "
              "steps of 1..5 substeps, monotone/cyclic/repeated/random ramps of 1..3 items (boundary, pressure, point load, body force), "
              "jobs with x0 and callbacks, an infeasible substep injected at a random position in every third history; the recorded "
